@@ -301,6 +301,8 @@ fn exec_inner(fam: Fam, n: usize, slots: &[T], st: &Step) -> (Outcome, Option<T>
             Ok(t) => tab(t),
             Err(()) => (Outcome::ParseErr, None),
         },
+        // (no fixed-size alias beyond 12 variables: the round trip is the identity there)
+        Op::ConvRoundTrip if n > 12 => tab(a.dup()),
         Op::ConvRoundTrip => match a.convert(n) {
             Ok(x) => match x.convert(n) {
                 Ok(t) => tab(t),
